@@ -396,18 +396,36 @@ def facts(repo):
         raise TransError("target is never assigned")
     tg = env["target"]
     _expect("target depends on", tuple(sorted(tg.leaves)), ("Ci", "Ms"))
-    decomposer(assign(s, "eigensolver"), "eigensolver", "self._params['n_modes']")
-    fitc = nxt()
-    _expect("eigensolver fit", _src(fitc), "eigensolver.fit(target, dims=%r)" % (tg.dims,))
+    via_svd = isinstance(s, ast.Assign) and len(s.targets) == 1 and try_dotted(s.targets[0]) == "eigensolver"
+    if via_svd:
+        decomposer(assign(s, "eigensolver"), "eigensolver", "self._params['n_modes']")
+        fitc = nxt()
+        _expect("eigensolver fit", _src(fitc), "eigensolver.fit(target, dims=%r)" % (tg.dims,))
+        _expect("U", _src(assign(nxt(), "U")), "eigensolver.U_")
+        _expect("lbda", _src(assign(nxt(), "lbda")), "eigensolver.s_")
+    else:
+        # symmetric eigen-solver: signed eigenvalues (ascending), reversed and truncated to n_modes
+        if not (isinstance(s, ast.Assign) and isinstance(s.targets[0], ast.Tuple) and [try_dotted(e) for e in s.targets[0].elts] == ["lbda", "U"]
+                and isinstance(s.value, ast.Call) and try_dotted(s.value.func) == "xr.apply_ufunc"):
+            raise TransError("eigen-problem of the target is solved by neither a Decomposer nor np.linalg.eigh: %s" % _src(s)[:80])
+        _expect("eigh call", [_src(a) for a in s.value.args], ["np.linalg.eigh", "target"])
+        kw = _kwargs(s.value)
+        _expect("eigh input dims", kw.get("input_core_dims"), "[%r]" % (tg.dims,))
+        _expect("eigh output dims", kw.get("output_core_dims"), "[('mode',), (%r, 'mode')]" % tg.dims[0])
+        _expect("eigh: selection of the n_modes largest", _src(assign(nxt(), "keep")), "slice(None, -self._params['n_modes'] - 1, -1)")
+        _expect("eigh: mode labels", _src(assign(nxt(), "mode_coords")), "range(1, self._params['n_modes'] + 1)")
+        _expect("U", _src(assign(nxt(), "U")), "U.isel(mode=keep).assign_coords(mode=mode_coords)")
+        _expect("lbda", _src(assign(nxt(), "lbda")), "lbda.isel(mode=keep).assign_coords(mode=mode_coords)")
     out.append("(* target, dims %r at the eigensolver *)" % (tg.dims,))
     out.append("Definition opa_target_src {F} (K : Ops F) (q : nat) (Ci Ms : list (list F)) : list (list F) :=\n  %s.\n" % tg.term)
-    _expect("U", _src(assign(nxt(), "U")), "eigensolver.U_")
-    _expect("lbda", _src(assign(nxt(), "lbda")), "eigensolver.s_")
-    out.append("(* both decompositions: Decomposer(flip_signs=False, solver='full') -> np.linalg.svd; U = eigensolver.U_, lbda = eigensolver.s_ :")
-    out.append("   the SINGULAR values of the symmetric target are taken as its eigenvalues *)")
+    if via_svd:
+        out.append("(* both decompositions: Decomposer(flip_signs=False, solver='full') -> np.linalg.svd; U = eigensolver.U_, lbda = eigensolver.s_ :")
+        out.append("   the SINGULAR values of the symmetric target are taken as its eigenvalues *)")
+    else:
+        out.append("(* C0: Decomposer(flip_signs=False, solver='full'); target: np.linalg.eigh, reversed, first n_modes: signed eigenvalues, descending *)")
     out.append("Definition opa_decomposer_flip_signs : bool := false.")
     out.append("Definition opa_decomposer_solver : string := \"full\"%string.")
-    out.append("Definition opa_eigen_via_svd : bool := true.\n")
+    out.append("Definition opa_eigen_via_svd : bool := %s.\n" % ("true" if via_svd else "false"))
     env["U"] = T("U", (tg.dims[0], "mode"), ("q", "k"), ("U",))
 
     def product(var, leaves, sig, name, seal, sizes):
@@ -466,7 +484,7 @@ def facts(repo):
     if len(dt) != 1 or _src(dt[0]) != "return self.data['decorrelation_time']":
         raise TransError("decorrelation_time accessor")
     out.append("Definition opa_decorrelation_time_accessor : string := \"decorrelation_time\"%string.\n")
-    info = dict(eigen_via_svd=True, w0=w0, wlast=wlast, includes_tau_max=incl, nsamples_after_dropna=after_flag(out), store=store)
+    info = dict(eigen_via_svd=via_svd, w0=w0, wlast=wlast, includes_tau_max=incl, nsamples_after_dropna=after_flag(out), store=store)
     return "\n".join(out), info
 
 
